@@ -200,7 +200,7 @@ struct VarRunner {
     {
         [&]<int... S>(std::integer_sequence<int, S...>) {
             ((s == S ? (f(std::type_identity<typename type_of_id<S>::type>{}), 0) : 0), ...);
-        }(std::make_integer_sequence<int, 9>{});
+        }(source_ids{});
     }
 
     static void state(Out& o, V const& x)
@@ -234,6 +234,23 @@ struct VarRunner {
         }
         six(o, [&](int k) { return rel6(k, std::as_const(a), std::as_const(b)); });
         six(o, [&](int k) { return rel6(k, std::as_const(b), std::as_const(a)); });
+        {
+            // the visitor receives the active alternative with the value category of the variant expression
+            // (the visitor does not move from its argument, so a and b are unchanged)
+            std::string cats;
+            auto fc = [&](auto&&... v) {
+                ((cats += std::is_lvalue_reference_v<decltype(v)>
+                              ? (std::is_const_v<std::remove_reference_t<decltype(v)>> ? 'c' : 'l')
+                              : (std::is_const_v<std::remove_reference_t<decltype(v)>> ? 'k' : 'r')),
+                    ...);
+            };
+            Lib::visit(fc, a);
+            Lib::visit(fc, std::as_const(a));
+            Lib::visit(fc, std::move(a));
+            Lib::visit(fc, std::move(std::as_const(a)));
+            Lib::visit(fc, std::move(a), std::as_const(b));
+            o.tok("vc").tok(cats);
+        }
         Lib::visit(
             [&](auto const& l, auto const& r) {
                 o.tok("v2").num(tid<std::remove_cvref_t<decltype(l)>>).num(enc(l));
@@ -417,6 +434,92 @@ struct OptRunner {
         state(o, std::as_const(a).or_else(g));
         state(o, O(a).or_else(g));
         state(o, std::as_const(a).or_else(h));
+        // the ref-qualified overloads: (1) the value category the callee of and_then receives for the four object
+        // categories; (2) what a non-const / const rvalue optional is left with by and_then (callee taking its
+        // parameter by value), or_else, value_or and T x = *obj
+        {
+            std::string cats;
+            auto fc = [&](auto&& v) -> OL {
+                using V          = decltype(v);
+                constexpr bool c = std::is_const_v<std::remove_reference_t<V>>;
+                constexpr bool l = std::is_lvalue_reference_v<V>;
+                cats += l ? (c ? 'c' : 'l') : (c ? 'k' : 'r');
+                return OL{enc(v)};
+            };
+            O t(a);
+            (void)t.and_then(fc);
+            (void)std::as_const(t).and_then(fc);
+            (void)std::move(t).and_then(fc);
+            (void)std::move(std::as_const(t)).and_then(fc);
+            if (cats.empty()) { cats = "----"; }
+            o.tok("q").tok(cats);
+        }
+        auto fv = [](T v) -> OL { return enc(v) == 2 ? OL{} : OL{enc(v) * 10}; };
+        {
+            O t(a);
+            pr(o, std::move(t).and_then(fv));
+            state(o, t);
+        }
+        {
+            O t(a);
+            pr(o, std::move(std::as_const(t)).and_then(fv));
+            state(o, t);
+        }
+        {
+            O t(a);
+            pr(o, t.and_then(fv));
+            state(o, t);
+        }
+        {
+            O t(a);
+            state(o, std::move(t).or_else(g));
+            state(o, t);
+        }
+        {
+            O t(a);
+            state(o, std::move(std::as_const(t)).or_else(g));
+            state(o, t);
+        }
+        {
+            O t(a);
+            o.num(enc(std::move(t).value_or(dec<T>(7))));
+            state(o, t);
+        }
+        {
+            O t(a);
+            o.num(enc(std::move(std::as_const(t)).value_or(dec<T>(7))));
+            state(o, t);
+        }
+        {
+            O t(a);
+            if (t.has_value()) {
+                T x = *std::move(t);
+                o.num(enc(x));
+            } else {
+                o.num(-1);
+            }
+            state(o, t);
+        }
+        {
+            O t(a);
+            if (t.has_value()) {
+                T x = *std::move(std::as_const(t));
+                o.num(enc(x));
+            } else {
+                o.num(-1);
+            }
+            state(o, t);
+        }
+        {
+            O t(a);
+            if (t.has_value()) {
+                T x = *t;
+                o.num(enc(x));
+            } else {
+                o.num(-1);
+            }
+            state(o, t);
+        }
         // relations: optional/optional both orders, optional/nullopt (the forms both provide),
         // optional/value both orders for 3 values of T and of U, mixed optional<T>/optional<U>
         o.tok("r");
@@ -606,6 +709,117 @@ struct ExpRunner {
         state(o, or_else(a, g));
         state(o, or_else(std::as_const(a), g));
         state(o, or_else(X(a), g));
+        // [expected.object.monadic]: the & / const& overloads hand **this / error() on as lvalues, the && / const&&
+        // overloads as std::move(...).  (1) the value category the callee receives, for the four object categories
+        std::string cats;
+        auto cat_of = [&]<typename V>(std::type_identity<V>) {
+            constexpr bool c = std::is_const_v<std::remove_reference_t<V>>;
+            constexpr bool l = std::is_lvalue_reference_v<V>;
+            cats += l ? (c ? 'c' : 'l') : (c ? 'k' : 'r');
+        };
+        auto fc = [&](auto&& v) -> XL {
+            cat_of(std::type_identity<decltype(v)>{});
+            return XL(Lib::in_place, enc(v));
+        };
+        auto gc = [&](auto&& e) -> XE {
+            cat_of(std::type_identity<decltype(e)>{});
+            return XE(Lib::unexpect, enc(e));
+        };
+        {
+            X t(a);
+            auto n0 = cats.size();
+            (void)and_then(t, fc);
+            if (cats.size() == n0) { cats += '-'; }
+            n0 = cats.size();
+            (void)and_then(std::as_const(t), fc);
+            if (cats.size() == n0) { cats += '-'; }
+            n0 = cats.size();
+            (void)and_then(std::move(t), fc); // fc does not move from its argument: t is unchanged when it has a value
+            if (cats.size() == n0) { cats += '-'; }
+            n0 = cats.size();
+            (void)and_then(std::move(std::as_const(t)), fc);
+            if (cats.size() == n0) { cats += '-'; }
+        }
+        {
+            X t(a);
+            auto n0 = cats.size();
+            (void)or_else(t, gc);
+            if (cats.size() == n0) { cats += '-'; }
+            n0 = cats.size();
+            (void)or_else(std::as_const(t), gc);
+            if (cats.size() == n0) { cats += '-'; }
+            n0 = cats.size();
+            (void)or_else(std::move(t), gc);
+            if (cats.size() == n0) { cats += '-'; }
+            n0 = cats.size();
+            (void)or_else(std::move(std::as_const(t)), gc);
+            if (cats.size() == n0) { cats += '-'; }
+        }
+        o.tok("q").tok(cats);
+        // (2) what an rvalue expected is left with: a callee that takes its parameter by value move-constructs it
+        // from an rvalue **this; the result's error / value is move-constructed from an rvalue error() / **this
+        auto fv = [](T v) -> XL { return enc(v) == 2 ? XL(Lib::unexpect, raw<E>(55)) : XL(Lib::in_place, enc(v) * 10); };
+        auto gv = [](E e) -> XE { return enc(e) == 2 ? XE(Lib::in_place, raw<T>(66)) : XE(Lib::unexpect, enc(e) * 10); };
+        {
+            X t(a);
+            state(o, and_then(std::move(t), fv));
+            state(o, t);
+        }
+        {
+            X t(a);
+            state(o, and_then(std::move(std::as_const(t)), fv));
+            state(o, t);
+        }
+        {
+            X t(a);
+            state(o, or_else(std::move(t), gv));
+            state(o, t);
+        }
+        {
+            X t(a);
+            state(o, or_else(std::move(std::as_const(t)), gv));
+            state(o, t);
+        }
+        {
+            X t(a);
+            state(o, and_then(t, fv)); // lvalue: copies
+            state(o, t);
+            state(o, or_else(t, gv));
+            state(o, t);
+        }
+        // (3) value_or (const& / &&), T x = *obj, E x = obj.error() on a non-const rvalue, a const rvalue, an lvalue
+        {
+            X t(a);
+            o.num(enc(std::move(t).value_or(dec<T>(7))));
+            state(o, t);
+        }
+        {
+            X t(a);
+            o.num(enc(std::move(std::as_const(t)).value_or(dec<T>(7))));
+            state(o, t);
+        }
+        auto take = [&](auto&& obj, X const& t) {
+            if (t.has_value()) {
+                T x = *std::forward<decltype(obj)>(obj);
+                o.num(enc(x));
+            } else {
+                E x = std::forward<decltype(obj)>(obj).error();
+                o.num(enc(x));
+            }
+            state(o, t);
+        };
+        {
+            X t(a);
+            take(std::move(t), t);
+        }
+        {
+            X t(a);
+            take(std::move(std::as_const(t)), t);
+        }
+        {
+            X t(a);
+            take(t, t);
+        }
     }
 
     static void run(Out& o, std::vector<Step> const& steps)
@@ -731,6 +945,8 @@ static void run_unexpected(Toks& in, Out& impl, Out& ref)
 
 // ------------------------------------------------------------------------- optional<T&>
 // libstdc++ 12 has no optional<T&>; the reference leg is the pointer cell of P2988 written out.
+// Objects: a, b of optional<R&> (R = T or T const), z of optional<T&>, a source src of
+// optional<T> (etl::optional in the impl leg, std::optional in the reference leg), three referent cells.
 template <typename T>
 struct RefCell {
     T* p = nullptr;
@@ -740,27 +956,73 @@ struct RefCell {
     void reset() { p = nullptr; }
     void bind(T& x) { p = &x; }
     void swap(RefCell& o) { std::swap(p, o.p); }
+    // [optional.ref.ctor] optional(const optional<U>& rhs): if rhs.has_value(), binds to *rhs; otherwise disengaged
+    template <typename S>
+    void from_optional(S const& rhs)
+    {
+        if (rhs.has_value()) { p = std::addressof(*rhs); } else { p = nullptr; }
+    }
 };
 
-template <typename T, bool Etl>
+// T: type of the cells / of the source optional's value; B: the type the optional<B&> under test refers to
+// (B = T, or a base class of T placed at a non-zero offset: the converting forms then adjust the pointer)
+template <typename T, typename B, bool Const, bool Etl>
 struct RefRunner {
-    using O = std::conditional_t<Etl, etl::optional<T&>, RefCell<T>>;
+    static constexpr bool Same = std::is_same_v<T, B>;
+    // conversions from the optional<T&> z: optional<T const&> from optional<T&>, or optional<B [const]&> from optional<T&>
+    static constexpr bool FromZ = Const || !Same;
+    using R   = std::conditional_t<Const, B const, B>;
+    using O   = std::conditional_t<Etl, etl::optional<R&>, RefCell<R>>;
+    using Z   = std::conditional_t<Etl, etl::optional<T&>, RefCell<T>>;
+    using Src = std::conditional_t<Etl, etl::optional<T>, std::optional<T>>;
 
-    static void state(Out& o, O const& x, T const* cells)
+    struct Ctx {
+        T const* cells;
+        B const* src_addr; // address of the object contained in src (fixed storage), once known
+        bool src_engaged;
+    };
+
+    template <typename X>
+    static auto dangling(X const& x, Ctx const& c) -> bool
+    {
+        return x.has_value() && c.src_addr != nullptr && x.operator->() == c.src_addr && !c.src_engaged;
+    }
+
+    template <typename X>
+    static void state(Out& o, X const& x, Ctx const& c)
     {
         o.b(x.has_value());
-        o.num(x.has_value() ? static_cast<i64>(x.operator->() - cells) : -1);
-        o.num(x.has_value() ? enc(*x) : -1);
+        if (!x.has_value()) {
+            o.num(-1).num(-1);
+            return;
+        }
+        B const* p = x.operator->();
+        int cell     = -1;
+        for (int i = 0; i < 3; ++i) {
+            if (p == static_cast<B const*>(c.cells + i)) { cell = i; }
+        }
+        if (cell >= 0) {
+            o.num(cell);
+        } else if (c.src_addr != nullptr && p == c.src_addr) {
+            o.num(3);
+        } else {
+            o.num(-2);
+        }
+        if (dangling(x, c)) { o.tok("dang"); } else { o.num(enc(*x)); }
     }
 
     static void run(Out& o, std::vector<Step> const& steps)
     {
         g_life.reset();
+        bool undefined = false;
         {
             T cells[3] = {dec<T>(1), dec<T>(2), dec<T>(3)};
+            Src src;
             O a;
             O b;
+            Z z;
             if constexpr (Etl) { b = O(etl::nullopt); }
+            Ctx ctx{cells, nullptr, false};
             o.tok("ok");
             for (auto const& st : steps) {
                 O& x      = st.t == 0 ? a : b;
@@ -790,33 +1052,161 @@ struct RefRunner {
                 }
                 case 's': a.swap(b); break;
                 case 'w': // write through
-                    if (x.has_value()) { *x = dec<T>(st.q); }
+                    if constexpr (!Const) {
+                        if (dangling(x, ctx)) {
+                            undefined = true;
+                        } else if (x.has_value()) {
+                            *x = dec<B>(st.q);
+                        }
+                    } else {
+                        done = false;
+                    }
                     break;
                 case 'f': {
                     O const& alias = x;
                     x              = alias;
                     break;
                 }
+                case 'W': cell = dec<T>(st.q); break; // the referent changes behind the optional
+                case 'o': // optional<R&>(optional<T> const&): only R = T const instantiates
+                    if constexpr (Const) {
+                        if constexpr (Etl) {
+                            x = O(std::as_const(src));
+                        } else {
+                            O tmp;
+                            tmp.from_optional(std::as_const(src));
+                            x = tmp;
+                        }
+                    } else {
+                        done = false;
+                    }
+                    break;
+                case 'i': // the same constructor selected by copy-initialisation (it is not explicit here)
+                    if constexpr (Const) {
+                        if constexpr (Etl) {
+                            O tmp = std::as_const(src);
+                            x     = tmp;
+                        } else {
+                            O tmp;
+                            tmp.from_optional(std::as_const(src));
+                            x = tmp;
+                        }
+                    } else {
+                        done = false;
+                    }
+                    break;
+                case 'x': // optional<T const&>(optional<T&> const&)
+                    if constexpr (FromZ) {
+                        if constexpr (Etl) {
+                            x = O(std::as_const(z));
+                        } else {
+                            O tmp;
+                            tmp.from_optional(std::as_const(z));
+                            x = tmp;
+                        }
+                    } else {
+                        done = false;
+                    }
+                    break;
+                case 'O': // the same constructor from a NON-const lvalue optional<T> (fix 375db84)
+                    if constexpr (Const) {
+                        if constexpr (Etl) {
+                            x = O(src);
+                        } else {
+                            O tmp;
+                            tmp.from_optional(src);
+                            x = tmp;
+                        }
+                    } else {
+                        done = false;
+                    }
+                    break;
+                case 'X': // ... from a non-const lvalue optional<T&>
+                    if constexpr (FromZ) {
+                        if constexpr (Etl) {
+                            x = O(z);
+                        } else {
+                            O tmp;
+                            tmp.from_optional(z);
+                            x = tmp;
+                        }
+                    } else {
+                        done = false;
+                    }
+                    break;
+                // converting assignment operator=(optional<U> const&) (fix a90346c); P2988 has no such operator:
+                // x = rhs means x = optional<R&>(rhs)
+                case 'q':
+                    if constexpr (Const) {
+                        if constexpr (Etl) { x = std::as_const(src); } else { x.from_optional(std::as_const(src)); }
+                    } else {
+                        done = false;
+                    }
+                    break;
+                case 'Q':
+                    if constexpr (Const) {
+                        if constexpr (Etl) { x = src; } else { x.from_optional(src); }
+                    } else {
+                        done = false;
+                    }
+                    break;
+                case 'y':
+                    if constexpr (FromZ) {
+                        if constexpr (Etl) { x = std::as_const(z); } else { x.from_optional(std::as_const(z)); }
+                    } else {
+                        done = false;
+                    }
+                    break;
+                case 'Y':
+                    if constexpr (FromZ) {
+                        if constexpr (Etl) { x = z; } else { x.from_optional(z); }
+                    } else {
+                        done = false;
+                    }
+                    break;
+                case 'z':
+                    if constexpr (Etl) { z = cell; } else { z.bind(cell); }
+                    break;
+                case 'Z': z.reset(); break;
+                case 'S': src = dec<T>(st.q); break;
+                case 'E': src.emplace(dec<T>(st.q)); break;
+                case 'R': src.reset(); break;
                 default: done = false; break;
                 }
+                if (undefined) { break; }
                 if (!done) { o.tok("bad-step"); }
-                state(o, a, cells);
-                state(o, b, cells);
+                ctx.src_engaged = src.has_value();
+                if (src.has_value()) {
+                    B const* now = std::addressof(*src);
+                    if (ctx.src_addr != nullptr && ctx.src_addr != now) { o.tok("source-storage-moved"); }
+                    ctx.src_addr = now;
+                }
+                state(o, a, ctx);
+                state(o, b, ctx);
+                state(o, z, ctx);
+                o.b(src.has_value()).num(src.has_value() ? enc(*src) : -1);
                 o.num(enc(cells[0])).num(enc(cells[1])).num(enc(cells[2]));
                 o.b(static_cast<bool>(a.has_value())).b(a.operator->() != nullptr);
+                if constexpr (Etl) { o.b(static_cast<bool>(a)); } else { o.b(a.has_value()); }
                 o.tok(";");
             }
+        }
+        if (undefined) {
+            // a write through a reference whose referent was destroyed: not executed
+            o.s.clear();
+            o.tok(Etl ? "ub" : "na");
+            return;
         }
         life_report(o);
     }
 };
 
-template <typename T>
+template <typename T, bool Const, typename B = T>
 static void run_optref(Toks& in, Out& impl, Out& ref)
 {
     auto steps = read_steps(in);
-    guarded(impl, [&](Out& o) { RefRunner<T, true>::run(o, steps); });
-    RefRunner<T, false>::run(ref, steps);
+    guarded(impl, [&](Out& o) { RefRunner<T, B, Const, true>::run(o, steps); });
+    RefRunner<T, B, Const, false>::run(ref, steps);
 }
 
 // ------------------------------------------------------------------------- visit dispatcher
@@ -911,32 +1301,118 @@ static bool disp_dispatch(std::vector<i64> const& sizes, std::size_t pos, std::v
 }
 
 // ------------------------------------------------------------------------- entry
-bool vh::run_case(std::string const& op, Toks& in, Out& impl, Out& ref)
+// The harness can be compiled as ONE translation unit (no C07_PART) or, to shorten the rebuild after
+// every change of /repo/include, as C07_NPARTS units (-DC07_PART=k, props/C07/pcxx.py) that each
+// instantiate a group of families; part 0 holds run_case and main.
+#ifdef C07_PART
+#define C07_IN(k) (C07_PART == (k))
+#else
+#define C07_IN(k) 1
+#endif
+
+namespace c07parts {
+bool part0(std::string const& op, Toks& in, Out& impl, Out& ref);
+bool part1(std::string const& op, Toks& in, Out& impl, Out& ref);
+bool part2(std::string const& op, Toks& in, Out& impl, Out& ref);
+bool part3(std::string const& op, Toks& in, Out& impl, Out& ref);
+bool part4(std::string const& op, Toks& in, Out& impl, Out& ref);
+bool part5(std::string const& op, Toks& in, Out& impl, Out& ref);
+// the dispatcher cases whose first variant has 3 / 4 alternatives (the bulk of the visit instantiations)
+bool disp3(std::vector<i64> const& sizes, std::vector<i64> const& idx, Out& impl, Out& ref);
+bool disp4(std::vector<i64> const& sizes, std::vector<i64> const& idx, Out& impl, Out& ref);
+} // namespace c07parts
+
+#if C07_IN(6)
+bool c07parts::disp4(std::vector<i64> const& sizes, std::vector<i64> const& idx, Out& impl, Out& ref)
 {
-    if (op == "var.A") { return run_variant<int, float>(in, impl, ref), true; }
+    return disp_dispatch<4>(sizes, 1, idx, impl, ref);
+}
+#endif
+#if C07_IN(7)
+bool c07parts::disp3(std::vector<i64> const& sizes, std::vector<i64> const& idx, Out& impl, Out& ref)
+{
+    return disp_dispatch<3>(sizes, 1, idx, impl, ref);
+}
+#endif
+
+#if C07_IN(1)
+bool c07parts::part1(std::string const& op, Toks& in, Out& impl, Out& ref)
+{
     if (op == "var.B") { return run_variant<int, Tracked, float>(in, impl, ref), true; }
-    if (op == "var.C") { return run_variant<Tracked, Tracked2>(in, impl, ref), true; }
-    if (op == "var.D") { return run_variant<int, long, char, Tracked>(in, impl, ref), true; }
-    if (op == "var.E") { return run_variant<bool, Tracked>(in, impl, ref), true; }
-    if (op == "var.F") { return run_variant<char, Tracked, double>(in, impl, ref), true; }
     if (op == "var.G") { return run_variant<float, long>(in, impl, ref), true; }
-    if (op == "opt.is") { return run_optional<int, short>(in, impl, ref), true; }
-    if (op == "opt.ti") { return run_optional<Tracked, int>(in, impl, ref), true; }
-    if (op == "opt.t2") { return run_optional<Tracked2, Tracked>(in, impl, ref), true; }
+    if (op == "var.H") { return run_variant<bool, Str>(in, impl, ref), true; }
+    return false;
+}
+#endif
+#if C07_IN(2)
+bool c07parts::part2(std::string const& op, Toks& in, Out& impl, Out& ref)
+{
+    if (op == "var.C") { return run_variant<Tracked, Tracked2>(in, impl, ref), true; }
+    if (op == "var.E") { return run_variant<bool, Tracked>(in, impl, ref), true; }
+    return false;
+}
+#endif
+#if C07_IN(3)
+bool c07parts::part3(std::string const& op, Toks& in, Out& impl, Out& ref)
+{
+    if (op == "var.D") { return run_variant<int, long, char, Tracked>(in, impl, ref), true; }
+    if (op == "var.I") { return run_variant<Str, Tracked, bool>(in, impl, ref), true; }
+    return false;
+}
+#endif
+#if C07_IN(4)
+bool c07parts::part4(std::string const& op, Toks& in, Out& impl, Out& ref)
+{
+    if (op == "var.F") { return run_variant<char, Tracked, double>(in, impl, ref), true; }
     if (op == "exp.il") { return run_expected<int, long>(in, impl, ref), true; }
     if (op == "exp.tt") { return run_expected<Tracked, Tracked2>(in, impl, ref), true; }
     if (op == "exp.ti") { return run_expected<Tracked, int>(in, impl, ref), true; }
     if (op == "unx.il") { return run_unexpected<int, long>(in, impl, ref), true; }
     if (op == "unx.tt") { return run_unexpected<Tracked, Tracked2>(in, impl, ref), true; }
-    if (op == "ref.i") { return run_optref<int>(in, impl, ref), true; }
-    if (op == "ref.t") { return run_optref<Tracked>(in, impl, ref), true; }
+    return false;
+}
+#endif
+#if C07_IN(5)
+bool c07parts::part5(std::string const& op, Toks& in, Out& impl, Out& ref)
+{
+    if (op == "opt.is") { return run_optional<int, short>(in, impl, ref), true; }
+    if (op == "opt.ti") { return run_optional<Tracked, int>(in, impl, ref), true; }
+    if (op == "opt.t2") { return run_optional<Tracked2, Tracked>(in, impl, ref), true; }
+    if (op == "ref.i") { return run_optref<int, false>(in, impl, ref), true; }
+    if (op == "ref.t") { return run_optref<Tracked, false>(in, impl, ref), true; }
+    if (op == "cref.i") { return run_optref<int, true>(in, impl, ref), true; }
+    if (op == "cref.t") { return run_optref<Tracked, true>(in, impl, ref), true; }
+    if (op == "bref.d") { return run_optref<Derived, false, Base>(in, impl, ref), true; }
+    if (op == "cbref.d") { return run_optref<Derived, true, Base>(in, impl, ref), true; }
+    return false;
+}
+#endif
+#if C07_IN(0)
+bool c07parts::part0(std::string const& op, Toks& in, Out& impl, Out& ref)
+{
+    if (op == "var.A") { return run_variant<int, float>(in, impl, ref), true; }
     if (op == "disp") {
         auto sizes = in.list();
         auto idx   = in.list();
-        if (sizes.size() != idx.size()) { return false; }
-        return disp_dispatch<>(sizes, 0, idx, impl, ref);
+        if (sizes.size() != idx.size() || sizes.empty()) { return false; }
+        switch (sizes[0]) {
+        case 1: return disp_dispatch<1>(sizes, 1, idx, impl, ref);
+        case 2: return disp_dispatch<2>(sizes, 1, idx, impl, ref);
+        case 3: return disp3(sizes, idx, impl, ref);
+        case 4: return disp4(sizes, idx, impl, ref);
+        default: return false;
+        }
     }
     return false;
 }
 
+bool vh::run_case(std::string const& op, Toks& in, Out& impl, Out& ref)
+{
+    using namespace c07parts;
+    // every part returns false without consuming tokens when the family is not its own
+    return part0(op, in, impl, ref) || part1(op, in, impl, ref) || part2(op, in, impl, ref) || part3(op, in, impl, ref)
+        || part4(op, in, impl, ref) || part5(op, in, impl, ref);
+}
+
 VERIF_MAIN()
+#endif
